@@ -16,14 +16,15 @@ out = ["# Sensitivity of the checks: seeded regressions", "",
        "* **seeded/** - %d regressions written by independent sub-agents: 20 agents in a first round (two regressions per property)," % n,
        "  20 more in a second round (two further regressions per property, asked for rarer triggers and told only the one-line titles of",
        "  the first round's regressions), 20 more in a third round (asked for regressions",
-       "  made of two cooperating changes or depending on state left by earlier calls). Each agent saw only the text of one property and its own git worktree of `/repo`; nothing from",
+       "  made of two cooperating changes or depending on state left by earlier calls), 20 more in a fourth round (capacity / boundary",
+       "  paths of data structures, rarely used entry points and argument combinations, arithmetic slips). Each agent saw only the text of one property and its own git worktree of `/repo`; nothing from",
        "  `/verif`. Every regression compiles, passes the repository's 48 tests and comes with a demonstration that passes without and",
        "  fails with the change; all three facts were re-confirmed with `tools/verify_seeded.sh` before the regression was kept.",
        "* **own mutants** - quick plausibility mutants from the lists in DESIGN.md section 7 (not kept as files; listed below).", "",
        "`tools/mutant.sh <patch> <ID>` runs the quick tier of a check against a patched scratch copy (`VERIF_REPO`); `tools/record_seeded.py`",
        "folds the logs (`tools/logs/`) into `seeded/*/meta.json`, from which this file is generated (`tools/gen_sensitivity.py`).", "",
        "## Seeded regressions (sub-agents)", "",
-       "m1, m2: first round; m3, m4: second round (rarer triggers); m5, m6: third round (cooperating changes, state / order dependence).", "",
+       "m1, m2: first round; m3, m4: second round (rarer triggers); m5, m6: third round (cooperating changes, state / order dependence); m7, m8: fourth round (capacity / boundary paths, rarely used entry points, arithmetic slips).", "",
        "| id | what it breaks (one line) | checks as they were when it arrived | after strengthening | cases until the verdict |",
        "|----|---------------------------|-------------------------------------|---------------------|-------------------------|"]
 for d, title, meta in rows:
@@ -41,10 +42,13 @@ for d, title, meta in rows:
     out.append("| %s | %s | %s | %s | %s |" % (d, title, f, l, cases))
 out += ["", "%d of the %d were caught by the checks as they were when the regression arrived. Every miss pointed at a shape the generator did" % (first_caught, n),
         "not reach or an observation the oracle did not make; each was closed by widening the generator or the oracle (never by raising",
-        "case counts), after which all are caught - with three exceptions that are explained in their `meta.json`:", "",
+        "case counts), after which all are caught - with four exceptions that are explained in their `meta.json`:", "",
         "* **C12-m4** (a callback switches off the process-wide file restrictions) is outside what C12 quantifies over; it is caught by C16.",
         "* **C09-m6** is obsolete for the same reason as C16-m4: the scenario written to catch it exposed a genuine defect (fix 8fa01c8), and with",
         "  the repair the mutated line is dead code.",
+        "* **C17-m8** (the extended getter no longer drops a trailing blank-only continuation line) is outside the generated domain: a",
+        "  blank-only line directly after an entry is excluded from the conventional grammar on purpose (DESIGN 5.1 note (a): the reader takes it as",
+        "  a continuation line, which is debatable), so what the extended getter reports for it is not judged.",
         "* **C16-m4** (restrictions evaluated on the realpath-resolved name for relative paths) is obsolete: extending C16 to relative",
         "  paths in order to catch it exposed the underlying behaviour as a genuine defect of the library (fix 39c4358); after the repair the",
         "  mutation is behaviour-preserving.", "",
@@ -87,7 +91,21 @@ out += ["", "%d of the %d were caught by the checks as they were when the regres
         "| C14-m5 | writer re-uses a buffer sized for an earlier, shorter comment: a later comment of exactly 8192 bytes loses a byte | the neighbours of C14's long entry carry short comments of their own |",
         "| C14-m6 | relative name whose absolute form has PATH_MAX-1 characters is refused | the total-path cells also read the deep file by relative name from its own directory |",
         "| C16-m5 | `econf_followSymlinks(true)` after `econf_requireOwner/Group` switches those checks off | C16 calls the setters in a generated order, with an explicit `followSymlinks(true)` when the rule is off |",
-        "| C16-m6 | owner/group compared against the parent directory while a permission rule is active | C16 adds, in 30% of its cases, a permission rule every generated file and directory satisfies |", "",
+        "| C16-m6 | owner/group compared against the parent directory while a permission rule is active | C16 adds, in 30% of its cases, a permission rule every generated file and directory satisfies |",
+        "| C01-m7, C13-m7 | drop-in scan skips the first two directory entries (assumed to be `.` and `..`) | the drop-in name universe has names that sort before `.` and between `.` and `..` (`+p`, `-m`, `.-d`) |",
+        "| C05-m7 | comment bytes above 0x7f are compared as signed char | 8% of C05's files use a comment set with the byte 0xA7 |",
+        "| C08-m8 | `[x]` with a one-character name is no longer stripped (C11 caught it) | C08 sets through `[T]` and gets through `T` (and the reverse), in memory and through files |",
+        "| C11-m7 | lookups see the pre-allocated spare slots: a never-set key named `_none_` exists | `_none_` is in the key pool of the histories |",
+        "| C11-m8 | `[]` is no longer the bracketed spelling of the empty section name | `[]` is one of the section spellings of the histories (group-less) |",
+        "| C13-m8 | an empty comment argument reaches the parser as \"no comment character\" | C13 passes `\"\"` for `#` in 20% of its single-file cases |",
+        "| C14-m7 | `econf_errLocation` loses the last character of a PATH_MAX-1 name | the total-path cells put a malformed file next to the deep one and compare error file and line |",
+        "| C14-m8 | buffer of the drop-in postfix list grows by doubling only: short postfix, then a NAME_MAX one | new C14 kind: postfix lists {`.d`, `/`+1..NAME_MAX characters, `/z.d`} through CONFIG_DIRS and econf_set_conf_dirs |",
+        "| C15-m7 | last continuation line of a file without final newline loses a character | C15's JOIN / PYTHON files end without newline in 20% of the cases |",
+        "| C16-m8 | required ids above INT_MAX switch the rule off | required uid 3000000000 / gid 4000000000 in 15% of the cases |",
+        "| C18-m7 | `strtok` in the option list parser: failures were found but never replayed (schedule is not part of the case) | C18 replays a case up to 8 times and reports it when two replays fail (`racy_replays`) |",
+        "| C18-m8 | process-wide initial capacity raced by object growth and creation, saturates after the first growth | 6 of C18's 16 shards fork every case from a process that never ran one; half of the cases run the concurrent phase before the serial reference; new operation: 9+ new keys at once |",
+        "| C19-m8 | empty `--delimiters` keeps the default | empty delimiter string (`--delimiters=`, `-d ''`) as seventh delimiter choice; exposed genuine defect RC21 (fix d7ec9de) |",
+        "| C04-m7 | group list growth forgets the terminator at 8, 16, ... groups (1 pointer, invisible without ASan) | 4% of the grammar's files are \"many sections\" files (>= 8 distinct sections in 0.6% of all files) - C02, C04 and every other user of the grammar |", "",
         "Own mutants exposed two more gaps (both closed): a shallow copy of `comment_before_key` in `cpy_file_entry` (C03 now takes a full",
         "extended dump of the merge result after both inputs were freed, parsed inputs carry comments) and `econftool` printing at most two",
         "value lines (C19's multi-line values now have 2-4 lines).", "",
